@@ -54,7 +54,7 @@ class GlyphReuseCache:
         ), f"{path} isn't a path, it's a glyph name we've seen before"
         assert path.startswith("M"), f"{path} doesn't look like a path"
 
-        if self._reuse_tolerance == -1:
+        if self._reuse_tolerance < 0:
             return None
 
         norm_path = normalize(SVGPath(d=path), self._normalize_tolerance).d
@@ -80,7 +80,7 @@ class GlyphReuseCache:
 
     def add_glyph(self, glyph_name, glyph_path):
         assert glyph_path.startswith("M"), f"{glyph_path} doesn't look like a path"
-        if self._reuse_tolerance != -1:
+        if self._reuse_tolerance >= 0:
             norm_path = normalize(SVGPath(d=glyph_path), self._normalize_tolerance).d
         else:
             norm_path = glyph_path
